@@ -183,3 +183,30 @@ Fixpoint cav_run (P : list pt) (n : nat) (ks : list nat) (T : list tri) : bool :
   end.
 Definition cavities_okb (super : list pt -> list pt) (pts : list pt) : bool :=
   cav_run (pts ++ super pts) (length pts) (seq 0 (length pts)) [super_tri (length pts)].
+
+(* ---- the combinatorial invariant from which the two cavity facts follow (BowyerWatsonProofs.v §10):
+   the triangulation is closed under edge reversal except along the super triangle — every directed
+   edge of a triangle is an edge of the super triangle or its reverse is an edge of a triangle *)
+Definition tri_verts (t : tri) : list nat := let '(a, b, c) := t in [a; b; c].
+Definition edge_closed (n : nat) (T : list tri) : Prop :=
+  forall t e, In t T -> In e (edges t) ->
+    In e (edges (super_tri n)) \/ exists g, In g T /\ In (snd e, fst e) (edges g).
+Definition edge_closedb (n : nat) (T : list tri) : bool :=
+  forallb (fun t => forallb (fun e =>
+    existsb (edge_eqb e) (edges (super_tri n)) ||
+    existsb (fun g => existsb (edge_eqb (snd e, fst e)) (edges g)) T) (edges t)) T.
+(* ... at every step of the run *)
+Definition closed_run (super : list pt -> list pt) (pts : list pt) : Prop :=
+  forall k, (k < length pts)%nat -> edge_closed (length pts) (bw_state super pts k).
+Fixpoint closed_runb_from (P : list pt) (n : nat) (ks : list nat) (T : list tri) : bool :=
+  match ks with
+  | [] => true
+  | k :: ks' => edge_closedb n T && closed_runb_from P n ks' (insert P T k)
+  end.
+Definition closed_runb (super : list pt -> list pt) (pts : list pt) : bool :=
+  closed_runb_from (pts ++ super pts) (length pts) (seq 0 (length pts)) [super_tri (length pts)].
+(* every input point strictly inside the (clockwise) super triangle *)
+Definition inside_super (super : list pt -> list pt) (pts : list pt) : Prop :=
+  let '(l, t, r) := super_gtri super pts in
+  orient l t r < 0 /\
+  forall p, In p pts -> orient l t p < 0 /\ orient t r p < 0 /\ orient r l p < 0.
